@@ -65,6 +65,20 @@ def run(tier):
                 orc = list({(o[0], o[1]): o for o in orc}.values())
                 dist["action_err"] += 1
             cases.append((e["tid"], items, orc, meta))
+    # recovery grammars with fallible actions: every short token string x every single failing action instance
+    # (a fallible action may run inside recovery's own reductions, with or without a pending lookahead)
+    nexh = 0
+    for e in c.ok:
+        g, t = e["g"], e["t"]
+        if g.name.startswith("rnd") or not (g.recovery and t["fallible"]) or not g.reduced(e["start"]):
+            continue
+        tn = {x: i for i, x in enumerate(t["tnames"])}
+        for w in lrcheck.short_strings(g, 3 if tier == "quick" else 4, cap=(90 if tier == "quick" else 400)):
+            items = [("k", tn['"%s"' % wd], i + 1, 2 * i + 1, 2 * i + 2) for i, wd in enumerate(w)]
+            for p in t["fallible"]:
+                for tid_ in [it[2] for it in items]:
+                    cases.append((e["tid"], items, [(p, tid_, 100 + p)], {})); nexh += 1
+    dist["exhaustive_recovery_action_errors"] = nexh
     dec, nbad = lrcheck.correspond(PROP, rep, c, cases, judge, "c17")
     reached = sum(1 for (tid, items, orc, meta), d in zip(cases, dec)
                   if (meta.get("err_at") is not None and d["pulled"] > meta["err_at"]) or any(x >= 1000000 for x in d["log"]))
